@@ -36,7 +36,7 @@ echo "== demo on unchanged tree" >> $LOG
 reset_repo
 git -C $M/repo apply $OUT/demo.diff >> $LOG 2>&1 || echo "DEMO DOES NOT APPLY" >> $LOG
 run_demo > $M/demo-clean.txt 2>&1; cat $M/demo-clean.txt >> $LOG
-if grep -q "test result: ok" $M/demo-clean.txt && ! grep -q "0 passed" $M/demo-clean.txt; then DEMO_CLEAN=pass; else DEMO_CLEAN=FAIL; fi
+if grep -Eq "test result: ok\. [1-9][0-9]* passed" $M/demo-clean.txt && ! grep -q "test result: FAILED" $M/demo-clean.txt; then DEMO_CLEAN=pass; else DEMO_CLEAN=FAIL; fi
 echo "== demo with the change" >> $LOG
 git -C $M/repo apply $OUT/patch.diff >> $LOG 2>&1 || echo "PATCH DOES NOT APPLY" >> $LOG
 run_demo > $M/demo-mut.txt 2>&1; cat $M/demo-mut.txt >> $LOG
@@ -50,7 +50,7 @@ RES=""
 for id in $PID $EXTRA; do
   /verif/tools/mutant.sh $OUT/patch.diff $id quick > $M/check-$id.txt 2>&1
   rc=$?
-  sig=$(grep -m1 "signature=" $M/check-$id.txt | sed 's/.*signature=\([^ ]*\).*/\1/')
+  sig=$(grep -A1 "^VIOLATION" $M/check-$id.txt | grep -m1 "signature=" | sed 's/.*signature=\([^ ]*\).*/\1/')
   echo "--- $id exit=$rc $sig" >> $LOG; tail -5 $M/check-$id.txt >> $LOG
   RES="$RES $id:exit=$rc:${sig:-none}"
 done
